@@ -788,7 +788,8 @@ func replay(c *mcx.Ctx, raw json.RawMessage) (string, string) {
 func init() {
 	mcx.Register(&mcx.Driver{
 		ID: "C20", Run: run, Replay: replay, NoSequence: true,
-		Rule: "histories of CLI invocations of the binary built from the current tree: supply chains of 1..3 steps, each step carried out with `run` or with `record start` / edit / `record stop` (all mode sequences up to 2 steps, uniform ones for 3; thorough: more), under 24 option sets (an older, longer file already lying where each link is written, expected commands stated in the layout, step names containing all sixteen hexadecimal digits, default, product names with a comma and a space plus CR LF content, --use-dsse, --cert, --cert with functionary certificates two intermediates below the layout root and the intermediates handed to `verify -i` as one file each, as one bundle file, or withheld, --lstrip-paths, no --metadata-directory, one-line and multi-line command output, two layout signers via `sign` twice, and combinations; thorough: the full product of five options), layout signed with `in-toto sign`; then every single tampering of 14 (none, product line endings changed only, product byte changed / added / removed, link digest edited / re-signed by a foreign key / deleted, layout field edited / re-signed by a foreign key, wrong layout key, extra layout key that did not sign, expired layout, second key supplied) followed by `verify`; " +
+		Rule: "also: --lstrip-paths ./src/ with artifacts named file by file as ./src/<file>; " +
+			"histories of CLI invocations of the binary built from the current tree: supply chains of 1..3 steps, each step carried out with `run` or with `record start` / edit / `record stop` (all mode sequences up to 2 steps, uniform ones for 3; thorough: more), under 24 option sets (an older, longer file already lying where each link is written, expected commands stated in the layout, step names containing all sixteen hexadecimal digits, default, product names with a comma and a space plus CR LF content, --use-dsse, --cert, --cert with functionary certificates two intermediates below the layout root and the intermediates handed to `verify -i` as one file each, as one bundle file, or withheld, --lstrip-paths, no --metadata-directory, one-line and multi-line command output, two layout signers via `sign` twice, and combinations; thorough: the full product of five options), layout signed with `in-toto sign`; then every single tampering of 14 (none, product line endings changed only, product byte changed / added / removed, link digest edited / re-signed by a foreign key / deleted, layout field edited / re-signed by a foreign key, wrong layout key, extra layout key that did not sign, expired layout, second key supplied) followed by `verify`; " +
 			"oracle: exit status 0 <=> the library called in-process on the very same files returns nil, honest => 0, tampered => non-zero, links are at the names the verifier globs for, no preliminary link is left; separately `sign --verify` x {right key, public key, wrong key, tampered file} x wrappers, `key id` / `key layout` for every file of the key pool, `match-products` for the 81 combinations of two link products and two local files. states = produced chains, transitions = CLI invocations.",
 		Assumptions: []string{"the CLI is built with plain `go build` from /repo (no overlay)", "observations are compared after replacing scratch paths"},
 		Workers:     16,
